@@ -3,6 +3,7 @@
  *            2 hostile strings for hwloc_type_sscanf, 3 (first case only per run) the 20x20 type table. */
 #include "hv.h"
 #include "topo.h"
+#include "hist.h"
 #include "snp.h"
 
 const char *hv_property = "C11";
@@ -126,6 +127,15 @@ static void objects_case(uint64_t index)
     t = tl_load_synthetic(d.s, &c, &stage);
     hv_str_free(&d);
     if (!t) { hv_stat("synthetic_load_failed", 1); return; }
+  }
+  if (hv_chance(&R, 1, 3)) {
+    /* objects that appear after the load (inserted Groups at new or existing Group levels, Misc objects) and levels that change
+     * (restrict) must print and parse like loaded ones */
+    struct hx h; hx_init(&h, t, &R); h.allow_bad_args = 0; h.allow_grouping = 0; h.no_fragile_groups = 1;
+    unsigned nops = 1 + (unsigned)hv_below(&R, 8), done = 0;
+    hv_ctxkey("modify_before_printing");
+    for (unsigned k = 0; k < nops; k++) { struct hx_result res; hx_random_op(&h, hv_chance(&R, 3, 4) ? 1u << HX_GROUP : (1u << HX_RESTRICT) | (1u << HX_MISC), &res); hv_desc("  %s -> %d\n", res.desc, res.rc); if (res.rc == 0) done++; if (res.fragile) break; }
+    if (done) hv_stat("object_cases_after_modifications", 1);
   }
   struct tv_view vw; tv_view_build(t, &vw, 0);
   /* every object when small, otherwise every I/O + special object and a sample of the others */
